@@ -75,6 +75,14 @@ def sk_aspath(ctx, asn4_bytes=True):
                        K.a_nexthop(ctx, ext=False), K.a_med(ctx, ext=False)], [K.prefix(ctx, 'n0', 3, False)])
 
 
+def sk_aspath_wd(ctx):
+    """the attributes of sk_aspath with one withdrawn prefix in front: the JSON encoder renders the attribute block differently
+    (next-hop inside it) when the UPDATE also withdraws"""
+    return K.body([K.prefix(ctx, 'w0', 2, False)],
+                  [K.a_origin(ctx, ext=False), K.attr(ctx, 'aspath', 0x40, 2, [2, 1] + K.sym(ctx, 'asn', 3) + [ctx.int('asn[3]', 0, 3)], ext=False),
+                   K.a_nexthop(ctx, ext=False), K.a_med(ctx, ext=False)], [K.prefix(ctx, 'n0', 3, False)])
+
+
 def sk_comm(ctx):
     return K.body([], [K.a_origin(ctx, ext=False), K.a_aspath(ctx, segs=(), ext=False), K.a_nexthop(ctx, ext=False), K.a_community(ctx, 1, ext=False),
                        K.a_aggregator(ctx, asn4=True, ext=False)], [K.prefix(ctx, 'n0', 2, False)])
@@ -97,8 +105,9 @@ def sk_aigp(ctx):
                        K.attr(ctx, 'aigp', 0x80, 26, [1, 0, 11] + K.sym(ctx, 'metric', 8), ext=False)], [K.prefix(ctx, 'n0', 3, False)])
 
 
-SHAPES = {'aspath': sk_aspath, 'comm': sk_comm, 'withdraw': sk_withdraw, 'origin': sk_bad_origin, 'aigp': sk_aigp}
-PAIRS = [('aspath', 'aspath'), ('comm', 'comm'), ('origin', 'origin'), ('aspath', 'comm'), ('withdraw', 'aspath'), ('origin', 'aspath')]
+SHAPES = {'aspath': sk_aspath, 'aspath-wd': sk_aspath_wd, 'comm': sk_comm, 'withdraw': sk_withdraw, 'origin': sk_bad_origin, 'aigp': sk_aigp}
+PAIRS = [('aspath', 'aspath'), ('comm', 'comm'), ('origin', 'origin'), ('aspath', 'comm'), ('withdraw', 'aspath'), ('origin', 'aspath'),
+         ('aspath-wd', 'aspath'), ('aspath', 'aspath-wd')]
 SESSION_PAIRS = [('asn4', 'asn4'), ('asn4', 'asn2'), ('asn2', 'asn4'), ('asn2', 'asn2')]
 # every session parameter an attribute decoder reads must be a dimension here (read from the source on every run: SESSION_DEPENDENCE)
 SESSIONS = dict(C2.SESSIONS, aigp=dict(families=('ipv4 unicast', 'ipv6 unicast'), adj_rib_in=True, aigp=True))
@@ -178,15 +187,24 @@ def h_pair(ctx, shape1, shape2, s1, s2, caching, third=False):
         after = summarize(msg1.data)
         ctx.check('first-result-unaltered', sx_eq(after, b1), sig='C19:%s>%s:%s>%s:earlier-result-altered' % (shape1, shape2, s1, s2), info={'before': b1, 'after': after})
     # text renderings of m2 are the same in both runs (witness on the model)
+    def event(msg, neg):
+        """the JSON event the API process receives for the message (time, counter and pids are not functions of the message)"""
+        if not isinstance(msg, Update):
+            return ''
+        import re
+        text = Response.JSON(json_version).update(neg.neighbor, 'receive', msg.data, b'', b'', neg)
+        text = re.sub(r'"(time|counter|pid|ppid)": ?[0-9.]+', r'"\\1": 0', text)
+        return text + '|' + msg.data.attributes.json()
+
     def texts():
         reset_all()
         _, x = decode(m2, n2)
-        ja = x.data.attributes.json() if isinstance(x, Update) else ''
+        ja = event(x, n2)
         reset_all()
         _, y1 = decode(m1, n1)
         render(y1, n1)
         _, y = decode(m2, n2)
-        jb = y.data.attributes.json() if isinstance(y, Update) else ''
+        jb = event(y, n2)
         return ja == jb
     ctx.witness_check('json-independent-of-history', texts, sig='C19:%s>%s:%s>%s:history-dependent-json' % (shape1, shape2, s1, s2))
     Attribute.caching = False
